@@ -399,6 +399,12 @@ func (w *c05eWalker) callEvent(c *ast.CallExpr) (string, bool) {
 		}
 	}
 	switch {
+	case how == "recv":
+		// `x.m()` -> "m(x)": what the method is called on
+		if sel, ok := c.Fun.(*ast.SelectorExpr); ok {
+			return name + "(" + w.x.src(sel.X) + ")", true
+		}
+		return name + "(?)", true
 	case strings.HasPrefix(how, "arg"):
 		i, _ := strconv.Atoi(how[3:])
 		if i < len(c.Args) {
@@ -1349,7 +1355,7 @@ func c05engineExtra(t *tr) string {
 		b.WriteString(c05eLeanPaths("runNewInstance", "regenerated from `runNewInstance`", w.paths(fd.Body.List)))
 	}
 	if fd := need("instancePool", "startInstances"); fd != nil {
-		w := walker(map[string]string{"newInstance": "", "runNewInstance": "", "Close": "", "Run": "", "Wait": "", "Err": ""})
+		w := walker(map[string]string{"newInstance": "", "runNewInstance": "", "Close": "", "Run": "", "Wait": "arg0", "Err": "recv"})
 		b.WriteString(c05eLeanPaths("startInstances", "regenerated from `(*instancePool).startInstances`", w.paths(fd.Body.List)))
 	}
 	if fd := need("instance", "Close"); fd != nil {
